@@ -297,6 +297,43 @@ func ReplayFile(t *testing.T, path string) {
 	t.Fatalf("VIOLATION-DETAIL %s %s", rf.Test, v)
 }
 
+// ReplayDir runs the plain regression check for every saved case (*.json) in dir, in name order.
+// Prints one "REGRESS-RESULT <file> ok|key=<key>" line per file; the first failing file fails the test.
+func ReplayDir(t *testing.T, dir string) {
+	files, _ := filepath.Glob(filepath.Join(dir, "*.json"))
+	n := 0
+	for _, path := range files {
+		b, err := os.ReadFile(path)
+		if err != nil {
+			continue
+		}
+		var rf replayFile
+		if err := json.Unmarshal(b, &rf); err != nil || rf.Test == "" {
+			fmt.Printf("REGRESS-RESULT %s skipped (not a case file)\n", path)
+			continue
+		}
+		f, ok := registry[rf.Test]
+		if !ok {
+			fmt.Printf("REGRESS-RESULT %s skipped (unknown test %q)\n", path, rf.Test)
+			continue
+		}
+		wd := time.AfterFunc(HangTimeout, func() {
+			fmt.Fprintf(os.Stderr, "WATCHDOG replay of %s expired after %v\nREGRESS-HANG %s\n", path, HangTimeout, path)
+			os.Exit(3)
+		})
+		v := f(rf.Case)
+		wd.Stop()
+		n++
+		Ev.Case(true, []byte("regress"), []byte(filepath.Base(path)))
+		if v != nil && !strings.HasPrefix(v.Key, "harness:") && !IsKnown(v.Key) {
+			fmt.Printf("REGRESS-RESULT %s key=%s\n", path, v.Key)
+			t.Fatalf("VIOLATION-DETAIL %s %s", rf.Test, v)
+		}
+		fmt.Printf("REGRESS-RESULT %s ok\n", path)
+	}
+	Ev.LabelN("regression_cases_replayed", int64(n))
+}
+
 // ---------------------------------------------------------------------------------------------
 // panics and hangs
 
